@@ -203,7 +203,7 @@ def run(tier, seed):
     try:
         cases = pinned_cases(lf, tier)
         rng = clilib.Rng(seed * 1000003 + 14)
-        for _ in range(100 if tier == "quick" else 3000):
+        for _ in range(400 if tier == "quick" else 5000):
             cases.append(c13.random_case(rng, lf, tier, check=False))
         tally = c13.Tally(PROP, lf, judge, exec14)
         ftree.run_all(cases, exec14, tally.on_result)
